@@ -1,2 +1,181 @@
-/-! Line-protocol driver stub (to be filled in): reads stdin, echoes nothing. -/
-def main : IO Unit := pure ()
+import SMV.Model.Binder
+/-!
+# Line-protocol driver for the binder model (C07)
+
+```
+scn <kind> <name>
+fixed <0|1>                      -- default 1
+sig   <name>:<po|pk|vp|ko|vk>:<0|1> …
+args  <v> …
+kw    <k>=<v> …
+arguments <name>=<one:v | tuple:v,v | dict:k:v,k:v | dflt> …     (kind ba)
+b     <k>=<v> …                  -- built-in values of the current event (kinds event)
+cb    <id> <ident> <qual> <param> …   -- a callback wrapped (in this order) and called with the current `b`
+fwd   <cb id>                    -- that callback calls `sm.send(child, *args', **its_kwargs, **kw')`;
+child                            -- the lines after `child` describe the child event: `args`, `kw` (= kw'),
+                                 -- `b`, `cb` as above
+end
+```
+kinds: `bind` (model `invoke`, `specCall`, `corner`, `wfB`), `ba` (`baArgs`/`baKwargs`), `call` (`pyCall`),
+`event` (reserved-name filter, layering, cache, binder for each `cb`; optional forwarded child event).
+All names and values are numbers; the harness owns the string tables.
+-/
+open SMV.Bind
+
+namespace DrvBind
+
+def splitWs (s : String) : List String := (s.splitOn " ").filter (· ≠ "")
+def natOf (s : String) : Nat := s.toNat?.getD 0
+
+def kindOf : String → Kind
+  | "po" => .po | "pk" => .pk | "vp" => .vp | "ko" => .ko | _ => .vk
+
+def paramOf (t : String) : Option Param :=
+  match t.splitOn ":" with
+  | [n, k, d] => some ⟨natOf n, kindOf k, d == "1"⟩
+  | _ => none
+
+def kvOf (t : String) : Option (Nat × Nat) :=
+  match t.splitOn "=" with
+  | [k, v] => some (natOf k, natOf v)
+  | _ => none
+
+def pairList (s : String) : KW :=
+  if s == "" then [] else
+  (s.splitOn ",").filterMap fun t =>
+    match t.splitOn ":" with
+    | [k, v] => some (natOf k, natOf v)
+    | _ => none
+
+def argValOf (s : String) : ArgVal :=
+  if s == "dflt" then .dflt
+  else if s.startsWith "one:" then .one (natOf (s.drop 4).toString)
+  else if s.startsWith "tuple:" then
+    let r := (s.drop 6).toString
+    .tuple (if r == "" then [] else (r.splitOn ",").map natOf)
+  else if s.startsWith "dict:" then .dict (pairList (s.drop 5).toString)
+  else .dflt
+
+def entryOf (t : String) : Option (Nat × ArgVal) :=
+  match t.splitOn "=" with
+  | [k, v] => some (natOf k, argValOf v)
+  | _ => none
+
+structure Cb where
+  id : Nat
+  callable : Callable
+  b : KW
+deriving Inhabited
+
+structure Scn where
+  kind : String := ""
+  name : String := ""
+  fixed : Bool := true
+  sig : List Param := []
+  args : List Val := []
+  kw : KW := []
+  arguments : Arguments := []
+  b : KW := []
+  cbs : Array Cb := #[]
+  fwd : Option Nat := none
+  inChild : Bool := false
+  args2 : List Val := []
+  kw2 : KW := []
+  cbs2 : Array Cb := #[]
+deriving Inhabited
+
+def addLine (s : Scn) : List String → Scn
+  | "fixed" :: v :: _ => { s with fixed := v == "1" }
+  | "sig" :: rest => { s with sig := rest.filterMap paramOf }
+  | "child" :: _ => { s with inChild := true }
+  | "args" :: rest => if s.inChild then { s with args2 := rest.map natOf } else { s with args := rest.map natOf }
+  | "kw" :: rest =>
+    if s.inChild then { s with kw2 := rest.filterMap kvOf } else { s with kw := rest.filterMap kvOf }
+  | "arguments" :: rest => { s with arguments := rest.filterMap entryOf }
+  | "b" :: rest => { s with b := rest.filterMap kvOf }
+  | "cb" :: id :: ident :: qual :: rest =>
+    let cb : Cb := ⟨natOf id, ⟨natOf ident, natOf qual, rest.filterMap paramOf⟩, s.b⟩
+    if s.inChild then { s with cbs2 := s.cbs2.push cb } else { s with cbs := s.cbs.push cb }
+  | "fwd" :: id :: _ => { s with fwd := some (natOf id) }
+  | _ => s
+
+def kwS (kw : KW) : String := ",".intercalate (kw.map fun (k, v) => s!"{k}:{v}")
+
+def argValS : ArgVal → String
+  | .one v => s!"one:{v}"
+  | .tuple vs => "tuple:" ++ ",".intercalate (vs.map toString)
+  | .dict kw => "dict:" ++ kwS kw
+  | .dflt => "dflt"
+
+def frameS : Option Frame → String
+  | none => "TypeError"
+  | some f => "ok " ++ " ".intercalate (f.map fun (n, v) => s!"{n}={argValS v}")
+
+def bFun (b : KW) : Name → Val := fun r => (kwGet b r).getD 0
+
+/-- the `**kwargs` dict found in a frame for signature `sig` -/
+def vkDict (sig : List Param) (f : Option Frame) : KW :=
+  match f, sig.find? (·.kind == .vk) with
+  | some fr, some p =>
+    match lookup fr p.name with
+    | some (.dict d) => d
+    | _ => []
+  | _, _ => []
+
+def runEvent (s : Scn) : List String := Id.run do
+  let mut out : List String := [s!"tk {kwS (filterReserved s.kw)}"]
+  let mut hist : List Callable := []
+  let mut fwdKw : KW := []
+  for cb in s.cbs do
+    -- adapters are memoised in wrapping order; the call uses the adapter the cache hands out
+    let fr := invokeWith s.fixed (fromCallable true (warm true [] hist) cb.callable).1 cb.callable.sig
+      s.args (eventKwargs s.kw (bFun cb.b))
+    hist := hist ++ [cb.callable]
+    out := out ++ [s!"cb {cb.id} {frameS fr}"]
+    if s.fwd == some cb.id then fwdKw := vkDict cb.callable.sig fr
+  match s.fwd with
+  | none => pure ()
+  | some _ =>
+    -- `sm.send(child, *args2, **kwargs, **kw2)` from inside that callback
+    let ukw := fwdKw ++ s.kw2
+    out := out ++ [s!"tk2 {kwS (filterReserved ukw)}"]
+    for cb in s.cbs2 do
+      let fr := invokeWith s.fixed (fromCallable true (warm true [] hist) cb.callable).1 cb.callable.sig
+        s.args2 (eventKwargs ukw (bFun cb.b))
+      hist := hist ++ [cb.callable]
+      out := out ++ [s!"child {cb.id} {frameS fr}"]
+  return out
+
+def runScn (s : Scn) : List String :=
+  match s.kind with
+  | "bind" =>
+    [s!"model {frameS (invoke s.fixed s.sig s.args s.kw)}",
+     s!"spec {frameS (specCall s.sig s.args s.kw)}",
+     s!"corner {if corner s.sig s.args s.kw then 1 else 0}",
+     s!"wf {if wfB s.sig then 1 else 0}"]
+  | "ba" =>
+    [s!"args {",".intercalate ((baArgs s.sig s.arguments).map toString)}",
+     s!"kwargs {kwS (baKwargs s.sig s.arguments false)}"]
+  | "call" => [s!"frame {frameS (pyCall s.sig s.args s.kw)}"]
+  | "event" => runEvent s
+  | k => [s!"unknown-kind {k}"]
+
+partial def loop (h : IO.FS.Stream) (cur : Option Scn) : IO Unit := do
+  let line ← h.getLine
+  if line.isEmpty then return ()
+  let toks := splitWs (line.trimAscii.toString)
+  match toks, cur with
+  | "scn" :: kind :: name :: _, _ => loop h (some { kind := kind, name := name })
+  | ["end"], some s =>
+    IO.println s!"scn {s.name}"
+    for l in runScn s do IO.println l
+    IO.println "end"
+    loop h none
+  | [], c => loop h c
+  | t, some s => loop h (some (addLine s t))
+  | _, none => loop h none
+
+end DrvBind
+
+def main : IO Unit := do
+  DrvBind.loop (← IO.getStdin) none
